@@ -318,6 +318,13 @@ func c18RunConcurrent(in c18In) (c18ChildOut, error) {
 			mu.Unlock()
 		}(th, ops)
 	}
+	// sequential prefix (pool preparation) before the goroutines are released
+	for _, o := range in.Seq {
+		inv := ctr.Add(1)
+		r := env.apply(o)
+		resp := ctr.Add(1)
+		out.Events = append(out.Events, c18Ev{len(in.Threads), o, r, inv, resp})
+	}
 	close(start)
 	wg.Wait()
 	for _, o := range env.probes() {
@@ -524,6 +531,33 @@ func c18Gen(tier string, r *rand.Rand) []Case {
 			in.Threads[th] = append(in.Threads[th], o)
 		}
 		cs = append(cs, mkcase("concurrent", in))
+	}
+	// a full pool containing a well-formed but wrong share (TrustedAdd), then several goroutines
+	// reconstruct at the same time: every call must fail, as it does sequentially
+	for k := 0; k < nconc/6+2; k++ {
+		in := c18Params(r)
+		if in.T > 2 {
+			in.T = 1 + r.IntN(2)
+		}
+		if in.N <= in.T+1 {
+			in.N = in.T + 2
+		}
+		perm := r.Perm(in.N)
+		bad := r.IntN(in.T + 1)
+		for j := 0; j <= in.T; j++ {
+			i := perm[j]
+			s := 2 * i
+			if j == bad {
+				s = []int{2*i + 1, 2 * perm[in.T+1]}[r.IntN(2)] // wrong message / another signer's genuine share
+			}
+			in.Seq = append(in.Seq, c18Op{Op: "ta", I: i, S: s})
+		}
+		g := 2 + r.IntN(2)
+		in.Threads = make([][]c18Op, g)
+		for j := 0; j < 9-len(in.Seq); j++ {
+			in.Threads[j%g] = append(in.Threads[j%g], c18Op{Op: "ts"})
+		}
+		cs = append(cs, mkcase("concurrent-reconstruct-invalid-pool", in))
 	}
 	return cs
 }
